@@ -12,6 +12,7 @@ import (
 	dtlsflight "github.com/pion/dtls/v3/internal/flight"
 	dtlsflight13 "github.com/pion/dtls/v3/internal/flight/flight13"
 	dtlsstate "github.com/pion/dtls/v3/internal/state"
+	"github.com/pion/dtls/v3/internal/verifhook"
 	"github.com/pion/dtls/v3/pkg/protocol"
 	"github.com/pion/dtls/v3/pkg/protocol/alert"
 	"github.com/pion/dtls/v3/pkg/protocol/handshake"
@@ -281,6 +282,7 @@ func (s *fsm13) prepare(ctx context.Context, conn Conn) (nextState State, err er
 		return StateErrored, err
 	}
 
+	pkts = verifhook.FilterFlight(s.cfg, s.state.IsClient, s.currentFlight.String(), s.state, s.cache, pkts)
 	s.flights = pkts
 	s.prepareFlightACKTracking(s.flights, s.retransmit)
 	if err := s.commitPreparedFlight(conn, s.currentFlight, s.flights); err != nil {
